@@ -446,6 +446,22 @@ def check_linear_forms(ctx):
 
 def _check_sum_comprehension(ctx, m, other, dunder, d: Defs):
     comps = [n for n in body_walk(m.node) if isinstance(n, ast.ListComp) and len(n.generators) == 1]
+    # a mapping built *by a constructor* from (key, term) pairs keeps the last pair of every key: an operand is allowed to hold
+    # the same operator twice (nothing simplifies the list the constructor receives), so such a table silently drops terms
+    for n in body_walk(m.node):
+        gens = pair = None
+        if isinstance(n, ast.Call) and (dotted(n.func) or "").split(".")[-1] in ("dict", "OrderedDict") and n.args and isinstance(n.args[0], (ast.GeneratorExp, ast.ListComp)):
+            g = n.args[0]
+            if isinstance(g.elt, ast.Tuple) and len(g.elt.elts) == 2:
+                gens, pair = g.generators, (g.elt.elts[0], g.elt.elts[1])
+        elif isinstance(n, ast.DictComp):
+            gens, pair = n.generators, (n.key, n.value)
+        if not gens or len(gens) != 1 or gens[0].ifs:
+            continue
+        it, tgt = norm(gens[0].iter), norm(gens[0].target)
+        if it in ("self.terms", f"{other}.terms") and norm(pair[1]) == tgt and tgt in {x.id for x in ast.walk(pair[0]) if isinstance(x, ast.Name)}:
+            ctx.violation(R3, m.key + ":terms", f"the terms of {it} are put in a mapping keyed by `{short(pair[0])}` by a constructor (last pair of a key wins): two terms of the operand with the same key overwrite each other, so the result is not the sum of all terms", f"{m.module.relpath}:{n.lineno}")
+            return
     if len(comps) != 1:
         ctx.undecided(R3, m.key, f"expected one comprehension building the new terms, found {len(comps)}", m)
         return
